@@ -25,6 +25,11 @@ func (*inRange) Exit(node *Node) {
 			if t := n.Left.Type(); t != nil && !isInteger(t.Kind()) {
 				return
 			}
+			// A nil-safe access has an integer static type but yields nil
+			// when a link is missing: nil is in no range, while nil >= a fails.
+			if mayBeNil(n.Left) {
+				return
+			}
 			if rng, ok := n.Right.(*BinaryNode); ok && rng.Operator == ".." {
 				if from, ok := rng.Left.(*IntegerNode); ok {
 					if to, ok := rng.Right.(*IntegerNode); ok {
@@ -59,6 +64,17 @@ func isInteger(k reflect.Kind) bool {
 	case reflect.Int, reflect.Int8, reflect.Int16, reflect.Int32, reflect.Int64,
 		reflect.Uint, reflect.Uint8, reflect.Uint16, reflect.Uint32, reflect.Uint64:
 		return true
+	}
+	return false
+}
+
+// mayBeNil reports whether node contains a nil-safe access.
+func mayBeNil(node Node) bool {
+	switch n := node.(type) {
+	case *IdentifierNode:
+		return n.NilSafe
+	case *PropertyNode:
+		return n.NilSafe || mayBeNil(n.Node)
 	}
 	return false
 }
